@@ -145,3 +145,29 @@ def dependency_roots(func, exprs, stop_names=(), visited=None, at=None, through_
     return roots
 
 
+
+
+def single_def_env(func):
+    """name -> defining expression for locals assigned exactly once at statement level (substituted transitively)."""
+    counts, defs = {}, {}
+    for st in walk_no_nested(func):
+        if isinstance(st, ast.Assign) and len(st.targets) == 1 and isinstance(st.targets[0], ast.Name):
+            counts[st.targets[0].id] = counts.get(st.targets[0].id, 0) + 1
+            defs[st.targets[0].id] = st.value
+        elif isinstance(st, (ast.AugAssign,)) and isinstance(st.target, ast.Name):
+            counts[st.target.id] = counts.get(st.target.id, 0) + 2
+        elif isinstance(st, (ast.For,)):
+            for n_ in ast.walk(st.target):
+                if isinstance(n_, ast.Name):
+                    counts[n_.id] = counts.get(n_.id, 0) + 2
+    env = {}
+    for k, v in defs.items():
+        if counts[k] == 1:
+            env[k] = v
+    # transitive closure (bounded)
+    for _ in range(4):
+        env = {k: _subst(v, {a: b for a, b in env.items() if a != k}) for k, v in env.items()}
+    return env
+
+
+from .symexec import subst as _subst  # noqa: E402
